@@ -43,11 +43,16 @@ def _run_variant(entry, pid):
     d = tempfile.mkdtemp(prefix="vtmut")
     try:
         shutil.copytree(os.path.join(REPO, "src"), os.path.join(d, "src"))
-        f = os.path.join(d, entry["file"])
-        s = open(f).read()
-        if entry["find"] not in s:
-            return entry["id"], "not-applicable", "pattern not found"
-        open(f, "w").write(s.replace(entry["find"], entry["repl"], 1))
+        if "patch" in entry:
+            r = subprocess.run(["patch", "-p1", "-s", "-i", os.path.join(ROOT, "refactors", entry["patch"])], cwd=d, capture_output=True, text=True)
+            if r.returncode != 0:
+                return entry["id"], "not-applicable", "patch does not apply"
+        else:
+            f = os.path.join(d, entry["file"])
+            s = open(f).read()
+            if entry["find"] not in s:
+                return entry["id"], "not-applicable", "pattern not found"
+            open(f, "w").write(s.replace(entry["find"], entry["repl"], 1))
         env = dict(os.environ, GENJAX_REPO=d, PYTHONDONTWRITEBYTECODE="1", JAX_PLATFORMS="cpu")
         out = subprocess.run([sys.executable, "-m", "vt.runner", pid, "--tier", "quick", "--only", "genjax"], cwd=ROOT, env=env, capture_output=True, text=True, timeout=1500)
         return entry["id"], out.returncode, out.stdout
@@ -132,7 +137,11 @@ def run(pid):
                     lines.append(f"MUTANT-SURVIVED property={pid} {mid}: {m['find'][:60]!r} -> {m['repl'][:60]!r} (rc={rc})")
             else:
                 ok = rc == 0
-                status = "still-verifies" if ok else ("not-applicable" if rc == "not-applicable" else "ALARM(rc=%s)" % rc)
+                if rc == 2 and m.get("allow_undecided"):
+                    # an honest "undecided" on a restructuring the unbounded contract cannot follow is not an alarm
+                    status = "undecided (accepted: %s)" % m["allow_undecided"]
+                else:
+                    status = "still-verifies" if ok else ("not-applicable" if rc == "not-applicable" else "ALARM(rc=%s)" % rc)
                 res["refactors"].append({"id": mid, "status": status, "note": m.get("note")})
                 if status.startswith("ALARM"):
                     lines.append(f"REFACTOR-ALARM property={pid} {mid}: {m.get('note')} (rc={rc})")
